@@ -52,7 +52,7 @@ pub fn gen(rng: &mut Rng, tier: Tier, idx: u64) -> Case {
     let (level, name) = match rng.below(4) {
         0 | 1 => (-1, 0),
         2 => (((idx / 3) % 256) as i64, 0),
-        _ => (if rng.chance(1, 2) { ((idx / 3) % 256) as i64 } else { -1 }, rng.range(1, 16) as i64),
+        _ => (if rng.chance(1, 2) { ((idx / 3) % 256) as i64 } else { -1 }, rng.range(1, 30) as i64),
     };
     c.n = vec![dec, level, name];
     let pp = *rng.pick(&[0u64, 200]);
@@ -73,7 +73,10 @@ fn build(c: &Case) -> (Vec<u8>, Vec<u8>, u8, usize) {
         // 3..: protocol names of other lengths (0..=12 bytes)
         let k = c.n.get(2).copied().unwrap_or(0);
         if k >= 3 {
-            const NAMES: [&str; 13] = ["", "M", "MQ", "MQT", "MQTTT", "MQIsd", "MQIsdpX", "MQTT-SN", "MQTTMQTT", "MQIsdpv3", "MQTT 3.1.", "MQTT 3.1.1", "MQIsdpMQIsdp"];
+            const NAMES: [&str; 27] = [
+                "", "M", "MQ", "MQT", "MQTTT", "MQIsd", "MQIsdpX", "MQTT-SN", "MQTTMQTT", "MQIsdpv3", "MQTT 3.1.", "MQTT 3.1.1", "MQIsdpMQIsdp",
+                "mqtt", "Mqtt", "MQTt", "MQISDP", "mqisdp", "MqIsDp", "MQIsdP", "\0MQTT", "\0\0MQTT", "\0MQIsdp", "MQTT\0", "MQIsdp\0", " MQTT", "MQTT ",
+            ];
             cn.proto_name = Bs::s(NAMES[(k as usize - 3) % NAMES.len()]);
         }
     }
